@@ -338,6 +338,34 @@ def r07_10(ctx):
             ctx.ob('R07.10', 'Pool.%s:%s.%s' % (fi.name, helper, what), ok, fi, c, why)
 
 
+def r07_13(ctx):
+    ctx.rule('R07.13', 'the result handler is built from the pool\'s final settings: every attribute its constructor '
+                       'call reads (by value) has its last assignment in Pool.__init__ before that call', floor=4)
+    m = ctx.model
+    pi = m.func('pool:Pool.__init__')
+    mk = m.func('pool:Pool.create_result_handler')
+    built = [n for (n, c) in q.calls(pi, 'self.create_result_handler')]
+    q.need(built, 'Pool.__init__ does not build the result handler')
+    read = set()
+    for c in [x for x in walk_own(mk.node) if isinstance(x, ast.Call) and mk.callee(x) == 'self.ResultHandler']:
+        for a in list(c.args) + [k.value for k in c.keywords if k.arg]:
+            if isinstance(a, ast.Attribute) and isinstance(a.value, ast.Name) and a.value.id == 'self':
+                read.add(a.attr)
+    q.need(len(read) >= 6, 'create_result_handler: arguments of the ResultHandler constructor not found')
+    after = pi.cfg.reach([n.id for n in built], skip_labels=('x',))
+    for attr in sorted(read):
+        writes = [dn for (dn, t, v) in q.assigns(pi, 'self.' + attr)]
+        if not writes:
+            continue
+        late = [dn for dn in writes if dn.id in after]
+        ctx.ob('R07.13', 'Pool.__init__:%s-final-before-the-result-handler-is-built' % attr, not late, pi,
+               late[0] if late else built[0],
+               'self.%s is not assigned again after create_result_handler()' % attr if not late else
+               'self.%s is assigned after the result handler captured its value: the handler keeps the earlier one '
+               '(e.g. check_timeouts = None: a pool without threads never drives the time-limit scan while it '
+               'drains at shutdown, and join() waits for a job that should have been timed out)' % attr)
+
+
 def r07_12(ctx, rule='R07.12'):
     ctx.rule(rule, 'jobs queued before close() still find a worker: while the pool is closing and jobs are pending, '
                    'somebody keeps replacing workers that exit (task quota, memory limit)', floor=1)
@@ -367,6 +395,7 @@ def r07_12(ctx, rule='R07.12'):
 
 
 def run(ctx):
+    r07_13(ctx)
     r07_12(ctx)
     r07_10(ctx)
     # join() must not wait for the time-limit scanner, which by design runs on until terminate()
